@@ -25,12 +25,13 @@ def corpus():
                    "dr 0 ; q ; adv 250000000 ; pu ; adv 250000000 ; pu ; adv 250000000 ; pu ; hp ; t 0 0 ; wa 0 ; q"),
         # one fragment of a fragmented sample lost / the whole fragmented sample lost: repaired (fixed 9534038, 46bd1ab)
         parse_line(PRE % (64, 1, 0, 0) + " ; R 0 1 rel=1 dur=0 ; netm ; w 0 1 117 1 ; q ; dr 1 ; adv 250000000 ; pu ; q ; "
-                   "adv 250000000 ; pu ; t 0 0 ; wa 0 ; q"),
+                   "adv 250000000 ; pu ; adv 250000000 ; pu ; adv 250000000 ; pu ; adv 250000000 ; pu ; t 0 0 ; wa 0 ; q"),
         parse_line(PRE % (64, 1, 0, 0) + " ; R 0 1 rel=1 dur=0 ; netm ; w 0 1 117 1 ; dr 0 ; dr 0 ; dr 0 ; w 0 1 4 2 ; "
-                   "adv 250000000 ; pu ; q ; adv 250000000 ; pu ; adv 250000000 ; pu ; t 0 0 ; wa 0 ; q"),
+                   "adv 250000000 ; pu ; q ; adv 250000000 ; pu ; adv 250000000 ; pu ; adv 250000000 ; pu ; "
+                   "adv 250000000 ; pu ; t 0 0 ; wa 0 ; q"),
         # loss + overtaking + duplication of plain DATA, repaired by one round
         parse_line(PRE % (64, 1, 0, 0) + " ; R 0 1 rel=1 dur=0 ; netm ; w 0 1 10 11 ; w 0 2 10 22 ; w 0 1 10 33 ; dr 0 ; "
-                   "dl 1 ; du 0 ; wa 0 ; adv 250000000 ; pu ; wp ; t 0 0 ; q"),
+                   "dl 1 ; du 0 ; wa 0 ; adv 250000000 ; pu ; adv 250000000 ; pu ; wp ; t 0 0 ; q"),
         # the heartbeat period: nothing after 150 ms, a HEARTBEAT exactly 200 ms after the last one
         parse_line(PRE % (1344, 1, 0, 0) + " ; R 0 1 rel=1 dur=0 ; netm ; w 0 1 10 1 ; dr 0 ; adv 150000000 ; q ; "
                    "adv 50000000 ; q ; adv 200000000 ; q ; pu ; t 0 0 ; q"),
